@@ -357,11 +357,11 @@ def _run(ctx, rng, quick, nmax, threads_set, impl):
     base = []   # (family, n_row, n_col, entries, bipartite)
     pairs3 = [(i, j) for i in range(3) for j in range(3) if i != j]
     masks = list(range(1, 1 << len(pairs3)))
-    for mask in (rng.sample(masks, 24) if quick else masks):
+    for mask in (rng.sample(masks, 40) if quick else masks):
         E = [pairs3[k] for k in range(len(pairs3)) if mask >> k & 1]
         ent, wk = weighted(rng, E, True)
         base.append(('exh3_' + wk, 3, 3, ent, False))
-    for _ in range(70 if quick else 500):
+    for _ in range(200 if quick else 900):
         kind = rng.choice(['directed', 'directed', 'undirected', 'bipartite'])
         r, c, ent, fam = gen_pagerank_graph(rng, nmax, kind)
         bip = kind == 'bipartite' or r != c
@@ -439,7 +439,7 @@ def _run(ctx, rng, quick, nmax, threads_set, impl):
     # (X) correspondence: Coq models vs implementation at small budgets
     # ==================================================================================================
     xcases = []   # (label, args, exprs [1 or 3 perturbed], tol, solver)
-    for _ in range(110 if quick else 500):
+    for _ in range(320 if quick else 1200):
         kind = rng.choice(['directed', 'directed', 'undirected', 'bipartite'])
         r, c, ent, fam = gen_pagerank_graph(rng, 6 if kind != 'bipartite' else 8, kind)
         ent = sorted((i, j, min(w, 3)) for (i, j, w) in ent)
@@ -505,7 +505,7 @@ def _run(ctx, rng, quick, nmax, threads_set, impl):
     # Katz: Coq model and brute force vs implementation
     # ==================================================================================================
     kcases = []
-    for _ in range(80 if quick else 400):
+    for _ in range(200 if quick else 800):
         kind = rng.choice(['directed', 'undirected', 'bipartite'])
         r, c, ent, fam = gen_pagerank_graph(rng, 7 if quick else 9, kind)
         alpha = rng.choice([F(1, 2), F(1, 2), F(3, 10), F(1), F(2), F(1, 10)])
@@ -541,7 +541,7 @@ def _run(ctx, rng, quick, nmax, threads_set, impl):
         if ent and components(4, ent) == 1:
             cb.append(('exh_und4', 4, ent))
     tries = 0
-    want = 90 if quick else 500
+    want = 220 if quick else 900
     while len(cb) < want and tries < 20 * want:
         tries += 1
         directed = rng.random() < 0.5
@@ -630,7 +630,7 @@ def _run(ctx, rng, quick, nmax, threads_set, impl):
     # HITS: wrapper model on the solver's raw vectors, and scores vs dense SVD
     # ==================================================================================================
     hcases = []
-    for _ in range(70 if quick else 400):
+    for _ in range(160 if quick else 600):
         connected = rng.random() < 0.8
         if connected:
             r, c = rng.randint(2, 6 if quick else 9), rng.randint(2, 6 if quick else 9)
